@@ -325,3 +325,14 @@ def loop_carried(loop):
                 expr(st, d)
     block(loop.body, defin)
     return read_first
+
+
+def structural(b: Bundle, oid, fn, clause, state, detail="", **meta):
+    """obligation about the SHAPE of the source that a contract relies on.  state: "ok" (recognised and as required), "wrong" (recognised, and it
+    demonstrably does something else: refuted), "unknown" (not recognised - a refactoring may be harmless: undecided, never a violation)."""
+    if state == "ok":
+        return ground(b, oid, fn, clause, True, detail=detail, **meta)
+    if state == "wrong":
+        return ground(b, oid, fn, clause, False, detail=detail, refuted_model=dict(found=str(detail)[:200]), **meta)
+    return b.add(Obligation(oid=oid, fn=fn, clause=clause, goal=None, meta=meta,
+                            decided=dict(verdict="undecided", backend="-", reason="source shape not recognised by the contract: " + str(detail)[:200], model=None)))
